@@ -2,8 +2,10 @@
 # usage: seed_batch.sh Cxx   : confirm the three red-team patches of Cxx and run the check against each confirmed one
 P=$1
 for i in 1 2 3; do
-  [ -f /tmp/adv-$P-out/patch$i.diff ] || continue
+  PFX=${ADVPFX:-adv}; OFF=${SEEDOFF:-0}; N=$((i+OFF))
+  [ -f /tmp/$PFX-$P-out/patch$i.diff ] || continue
+  rm -rf /verif/seeded/$P-$N
   /verif/tools/confirm_seed.sh $P $i 2>&1 | tail -2
-  if [ -f /verif/seeded/$P-$i/meta.json ]; then /verif/tools/run_seed.sh $P-$i 2>&1 | tail -1; fi
+  if [ -f /verif/seeded/$P-$N/meta.json ]; then /verif/tools/run_seed.sh $P-$N 2>&1 | tail -1; fi
 done
-rm -rf /tmp/adv-$P/_build0 /tmp/adv-$P/_build1
+rm -rf /tmp/${ADVPFX:-adv}-$P/_build0 /tmp/${ADVPFX:-adv}-$P/_build1
